@@ -76,13 +76,9 @@ def body_hull(case):
     B2 = B1 * c
     with calling("in_hull_from_A (original units)"):
         g1 = np.asarray(in_hull_from_A(B1, sv1.A, **sv1.kwargs()))
-    try:
-        with calling(f"in_hull_from_A (units s={s:.3g}, c={c:.3g})"):
-            g2 = np.asarray(in_hull_from_A(B2, sv2.A, **sv2.kwargs()))
-    except Violation:
-        if case["asserted"]:
-            raise
-        return sv1.labels() + ["stress", "stress:exception"]
+    # gamut membership is pure geometry (no solver tolerances): asserted for every unit change, also far outside the well-scaled regime
+    with calling(f"in_hull_from_A (units s={s:.3g}, c={c:.3g})"):
+        g2 = np.asarray(in_hull_from_A(B2, sv2.A, **sv2.kwargs()))
     labs = sv1.labels() + [f"cfg:{case['cfg']}", "asserted" if case["asserted"] else "stress"]
     big = max(s, 1 / s, c, 1 / c)
     for r, b, a1, a2 in zip(case["rows"], B1, g1, g2):
@@ -94,7 +90,7 @@ def body_hull(case):
         if not (clear_in or clear_out):
             labs.append("band")
             continue
-        if case["asserted"]:
+        if True:
             check(bool(a1) == bool(a2), "units:membership-changes",
                   f"gamut membership of a target {'inside' if clear_in else 'outside'} (kind {r['kind']}) changes from {bool(a1)} to {bool(a2)} under the unit change s={s:.4g}, c={c:.4g} [{'/'.join(sv1.labels())}]",
                   observed=dict(b=b.tolist(), s=s, c=c))
@@ -102,8 +98,6 @@ def body_hull(case):
                 labs.append("nt:unit-change-near-boundary")
             elif big >= 3:
                 labs.append("nt:unit-change")
-        else:
-            labs.append("stress:agree" if bool(a1) == bool(a2) else "stress:disagree")
     return labs
 
 
